@@ -708,13 +708,11 @@ int32_t jls_core_utc(struct jls_core_s * self, uint16_t signal_id, int64_t sampl
     sample_id += sample_id_offset;
     // Entries that no index chunk holds yet (a file that was not closed normally)
     // are reached through the list of their DATA chunks.
-    bool is_tail = false;
     struct jls_chunk_header_s hdr;
     int32_t rv = jls_core_ts_seek(self, signal_id, 1, JLS_TRACK_TYPE_UTC, sample_id);
     if (rv == JLS_ERROR_NOT_FOUND) {
         // no index: no utc entries, or only entries that are not indexed yet
         hdr.item_next = self->signal_info[signal_id].tracks[JLS_TRACK_TYPE_UTC].head_offsets[0];
-        is_tail = true;
     } else if (rv) {
         return rv;
     } else {
@@ -732,8 +730,8 @@ int32_t jls_core_utc(struct jls_core_s * self, uint16_t signal_id, int64_t sampl
                 .sample_id = utc_data->header.timestamp - sample_id_offset,
                 .timestamp = utc_data->timestamp,
             };
-            if (is_tail && (utc_data->header.timestamp < sample_id)) {
-                continue;
+            if (utc_data->header.timestamp < sample_id) {
+                continue;  // before the requested sample id
             }
             if (cbk_fn(cbk_user_data, &entry, 1)) {
                 return 0;
@@ -772,7 +770,6 @@ int32_t jls_core_utc(struct jls_core_s * self, uint16_t signal_id, int64_t sampl
                         && (0 == jls_raw_rd_header(self->raw, &h_data))
                         && (h_data.tag == JLS_TAG_TRACK_UTC_DATA)) {
                     hdr.item_next = h_data.item_next;
-                    is_tail = true;
                 }
             }
         } else {
